@@ -412,11 +412,12 @@ example : ∀ id r, (runOne exCl exDestroy).mgr.find? id = some r → r.strategy
 -- an object held by a finalizer that the environment completes during the wait ("finalizer-gone") is gone as well
 example : (runOne exCl { exDestroy with del := [(cmA, "finalizer-gone")] }).mgr.isReconcile cmA .succeeded = true ∧
     (runOne exCl { exDestroy with del := [(cmA, "finalizer-gone")] }).cl.find? cmA = none := by decide
-/-- `DelScriptsOK` is needed: with any other script value the environment keeps the object (finalizer) but the feed reports NotFound —
-the delete is recorded as succeeded and reconciled while the object is still stored -/
+/-- `DelScriptsOK`: an unknown script value now means "no finalizer, the feed reports NotFound" (`hasFinalizer` names the finalizer
+scripts explicitly), so the conclusion holds there too; the hypothesis stays because it excludes the script "replaced", under which a
+delete wait reports an object reconciled that is still stored (`C05.scripted_replaced_reconciles`) -/
 example : ((runOne exCl { exDestroy with del := [(cmA, "weird")] }).mgr.find? cmA).map (fun r => (r.strategy, r.actuation, r.reconcile)) =
       some (.delete, .succeeded, .succeeded) ∧
-    ((runOne exCl { exDestroy with del := [(cmA, "weird")] }).cl.find? cmA).isSome = true := by decide
+    ((runOne exCl { exDestroy with del := [(cmA, "weird")] }).cl.find? cmA).isSome = false := by decide
 
 /-! ### 3. `completed_run_inventory` -/
 
@@ -486,10 +487,10 @@ example : (runOne (stOf [{ id := exA, uid := "u1", gen := 1, owner := "", keep :
       destroyAll).cl.inv = none ∧
     annotatedB (runOne (stOf [{ id := exA, uid := "u1", gen := 1, owner := "", keep := true }, { id := exA, uid := "u2", gen := 1, owner := invId }] [exA])
       destroyAll).cl = true := by decide
-/-- `DelScriptsOK`: the feed reports NotFound for an object the environment keeps -/
+/-- `DelScriptsOK`: (see above) an unknown script value is harmless now: nothing annotated is left behind -/
 example : noErrorB (runOne exCl { exDestroy with del := [(cmA, "weird")] }).events = true ∧
     (runOne exCl { exDestroy with del := [(cmA, "weird")] }).cl.inv = none ∧
-    annotatedB (runOne exCl { exDestroy with del := [(cmA, "weird")] }).cl = true := by decide
+    annotatedB (runOne exCl { exDestroy with del := [(cmA, "weird")] }).cl = false := by decide
 end Necessity
 
 /-! ### 5. `reapply_is_fixpoint` -/
